@@ -139,6 +139,23 @@ Section Spell.
     rewrite (self_match cwd r ws Hp Hw Hg). reflexivity.
   Qed.
 
+  (* remote mode (docker exec, ssh, ...; since 098b659): nothing is resolved, but a leading ~ of a command word is
+     expanded the way parse_config expands it in the pattern (_expand_pattern_tildes = the same
+     _expand_home_only, token by token) - so the rule written with the command's own words fires there too *)
+  Lemma self_match_remote cwd r ws :
+    r_pat r = join [c_sp] (map (expand_home_only home) ws) ->
+    no_glob (r_pat r) = true ->
+    m_words [] [r] cwd true ws = Some r.
+  Proof.
+    intros Hp Hg. unfold match_words, last_match. cbn [fold_left].
+    unfold word_rule_matches, rule_pattern, cmd_string. rewrite <- Hp.
+    assert (M : pat_matches (r_pat r) (r_exact r) (r_pat r) = true).
+    { destruct (r_exact r).
+      - apply pat_anchor_iff; [exact Hg|reflexivity].
+      - apply pat_literal_iff; [exact Hg|left; reflexivity]. }
+    rewrite M. reflexivity.
+  Qed.
+
   (* ---- the same files in another spelling (symlink-free hypothesis) ---- *)
   Variable lex : lexical resolve1 resolve2.
 
